@@ -179,6 +179,19 @@ def exc_signature(e):
     root = os.path.dirname(os.path.realpath(acnportal.__file__)) + os.sep
     tb = traceback.extract_tb(e.__traceback__)
     inner = tb[-1] if tb else None
+    if isinstance(e, RecursionError) and tb:
+        # the stack was used up by whoever recursed, not by the frame that happened to hit the limit: the most
+        # frequent frame of the traceback decides (library recursion -> verdict, harness recursion -> harness error)
+        freq = {}
+        for fr in tb:
+            k = (os.path.realpath(fr.filename), fr.name)
+            freq[k] = freq.get(k, 0) + 1
+        (fn, name), cnt = max(freq.items(), key=lambda kv: kv[1])
+        if cnt >= 50 and fn.startswith(root):
+            return (
+                "library-exception:RecursionError:%s:%s" % (os.path.basename(fn), name),
+                "the library exhausted the call stack recursing in %s (%s), %d nested calls, on an input of the property's domain" % (name, os.path.basename(fn), cnt),
+            )
     # skip frames of third-party packages called by the library (numpy / pandas raising on the library's behalf)
     lib = None
     for fr in reversed(tb):
